@@ -125,6 +125,8 @@ class Ctx:
             for n in names:
                 self.obligation(f'theorem:{n}', False, f'Print Assumptions failed: {(out + err)[-500:]}')
             return False
+        if not self.quick:
+            self.coqchk(pfile)
         for n, b in zip(names, blocks):
             if b.startswith('Closed'):
                 self.assumptions[n] = []
@@ -137,6 +139,17 @@ class Ctx:
                 self.obligation(f'theorem:{n}', not bad, 'axioms: ' + ', '.join(ax))
                 allok &= not bad
         return allok
+
+    def coqchk(self, pfile):
+        """thorough tier: re-check the compiled property file and everything it depends on with the independent checker"""
+        rc, out, err, dt = sh(['coqchk', '-o', '-silent', '-R', COQ, 'Depccg', f'Depccg.{pfile}'], timeout=3000)
+        out = out + '\n' + err          # coqchk writes its context summary to stderr
+        m = re.search(r'\* Axioms:\s*(.*?)\n\s*\n', out + '\n\n', flags=re.S)
+        axioms = (m.group(1).strip() if m else '?')
+        self.stats[f'coqchk_s:{pfile}'] = round(dt, 1)
+        self.stats[f'coqchk_axioms:{pfile}'] = axioms[:500]
+        bad = rc != 0 or 'type-in-type: <none>' not in out.replace('\n', ' ') or 'unsafe (co)fixpoints: <none>' not in out.replace('\n', ' ')
+        self.obligation(f'coqchk:{pfile} (independent checker; axioms: {axioms[:200]})', not bad, (out + err)[-1500:])
 
     def coq_cases(self, name, preamble, cases, chunk=300, describe=None, timeout=900):
         """cases: list of Gallina terms of type bool ('model agrees with what the implementation did').
